@@ -12,4 +12,4 @@ var secret = big.NewInt(42)
 func Get() *big.Int { return secret }
 
 // Fresh is not an accessor.
-func Fresh() *big.Int { return new(big.Int).Set(secret) }
+func Fresh() *big.Int { return new(big.Int).Set(secret) } // want: farg secret (*math/big.Int).Set 0
